@@ -53,8 +53,8 @@ Strpos(s, a) == IF ~Contains(s, a) THEN 0
                 ELSE 1 + CHOOSE i \in 0..(Len(s) - Len(a)) :
                            SubSeq(s, i + 1, i + Len(a)) = a /\ \A j \in 0..(i - 1) : SubSeq(s, j + 1, j + Len(a)) # a
 RECURSIVE Replace(_, _, _)
-Replace(s, from, to) ==    \* from # <<>>, leftmost non-overlapping occurrences
-  IF Len(s) < Len(from) THEN s
+Replace(s, from, to) ==    \* leftmost non-overlapping occurrences; an empty `from` replaces nothing
+  IF from = <<>> \/ Len(s) < Len(from) THEN s
   ELSE IF SubSeq(s, 1, Len(from)) = from THEN to \o Replace(SubSeq(s, Len(from) + 1, Len(s)), from, to)
   ELSE <<s[1]>> \o Replace(Tail(s), from, to)
 (* case mapping over the tabulated alphabet: a-z, A-Z, e-acute; everything else unchanged *)
